@@ -1,7 +1,7 @@
 """C20 Equality means same type, same text and same structure."""
 import copy
 
-from .. import common, gen, ops, walker
+from .. import common, gen, ops, storemodel, walker
 from autobean_refactor import models
 from autobean_refactor.models import base as mbase
 from autobean_refactor.models.internal.repeated import Repeated
@@ -11,11 +11,13 @@ CASES = {'quick': 1500, 'thorough': 40000}
 GATES = {
     'quick': {'evaluations': 30000, 'equal_pairs': 15000, 'token_perturbations': 3400, 'child_perturbations': 2500,
               'attribution_perturbations': 500, 'type_perturbations': 300, 'class_fields_perturbed': 120, 'token_law_pairs': 10000,
-              'whole_file_text_perturbations': 3000, 'token_law_after_edit': 3000},
+              'whole_file_text_perturbations': 3000, 'token_law_after_edit': 3000, 'documents_in_small_blocks': 400,
+              'submodel_copies': 4000},
     'thorough': {'evaluations': 800000, 'class_fields_perturbed': 160},
 }
-RULE = ('case = one accepted generated document. Equal pairs: two parses of the text and a model and its deepcopy, compared root and '
-        'sub-model by sub-model in both directions. Unequal pairs, each built from a fresh twin: one token\'s text changed (sampled '
+RULE = ('case = one accepted generated document (a third of them parsed into stores of 2..10-token blocks, the second parse and all '
+        'copies into ordinary blocks). Equal pairs: two parses of the text, a model and its deepcopy, compared root and '
+        'sub-model by sub-model in both directions, and 8 sub-models each against a deep copy taken of it alone. Unequal pairs, each built from a fresh twin: one token\'s text changed (sampled '
         'tokens of every class; every ancestor must become unequal, every disjoint sub-model stay equal), one catalog edit that adds, '
         'removes or replaces a child or list element (asserted unequal whenever printed text or the structural digest with attribution '
         'differs), the same text parsed as another type (CostSpec vs UnitCost/TotalCost, NumberExpr vs paren/unary expression, tokens '
@@ -93,8 +95,17 @@ def by_path(root):
 def run_case(col, r, idx):
     P = common.parser()
     acl = idx % 4 != 0
-    text, a = (gen.accepted_layout(r, P, auto_claim_comments=acl) if idx % 4 == 1 else
-               gen.accepted_document(r, P, gen.DEFAULT, n=r.randint(1, 5), auto_claim_comments=acl))
+    # a third of the documents live in a store of 2..10-token blocks; the second parse and all copies use ordinary blocks, so equal
+    # models are laid out differently in their stores
+    lf = r.choice([2, 3, 5, 10]) if idx % 3 == 0 else 1000
+    storemodel.set_load_factor(lf)
+    try:
+        text, a = (gen.accepted_layout(r, P, auto_claim_comments=acl) if idx % 4 == 1 else
+                   gen.accepted_document(r, P, gen.DEFAULT, n=r.randint(1, 5), auto_claim_comments=acl))
+    finally:
+        storemodel.set_load_factor(1000)
+    if lf != 1000:
+        col.count('documents_in_small_blocks')
     if a is None:
         col.skip('document rejected by parse')
         return
@@ -113,6 +124,14 @@ def run_case(col, r, idx):
         if not expect_equal(col, m, pb[path], f'parse-twice:{type(m).__name__}', f'{path} of two parses', dict(wit, path=path)):
             return
         if path in pc and not expect_equal(col, m, pc[path], f'deepcopy:{type(m).__name__}', f'{path} and its deep copy', dict(wit, path=path)):
+            return
+    # sub-models copied on their own: the copy lives in a fresh store of its own
+    subs = [(p_, m_) for p_, m_ in pa.items() if isinstance(m_, mbase.RawTreeModel) and m_ is not a and len(m_.tokens) > 1]
+    for path, m in r.sample(subs, min(8, len(subs))):
+        col.count('equal_pairs')
+        col.count('submodel_copies')
+        if not expect_equal(col, m, copy.deepcopy(m), f'deepcopy-submodel:{type(m).__name__}', f'{path} and its own deep copy',
+                            dict(wit, path=path, lf=lf)):
             return
     # token laws on tokens of this document
     toks = [t for t in a.token_store]
